@@ -139,8 +139,7 @@ EndsWithStop(helper, calls, outcome) ==
        ELSE Len(calls) >= 1 /\ calls[Len(calls)] = "stop"
 \* nothing streamed after the stop command (evaluated when a call arrives)
 AfterStopOK(helper, calls, c) ==
-    LET stopped == \E i \in DOMAIN calls : calls[i] = "stop"
-        \* a later flight (explicit take_off after land) is not "afterwards" of the earlier landing
+    LET stopped == \E i \in DOMAIN calls : calls[i] = "stop"      \* (programs fly once: no take_off after land)
     IN  IF helper = "MC" THEN ~stopped \/ (c = "notify" /\ calls[Len(calls)] = "stop")
         ELSE ~stopped
 
